@@ -1,9 +1,135 @@
 import Driver.Util
-open Lean
+import Torf.Spec.Create
+open Lean Torf.Paths Torf.Create
 namespace Driver.C15
 
-/-- ops of property C15: `c15.<name>` -/
-def handle (op : String) (_j : Json) : Except String Json :=
-  throw s!"unknown op {op}"
+/-! ops of property C15
+
+  common case fields: `name`, `files` = [{rel:[…], size}], `order` = indices into `files` (walk
+  order), `cwd` = components, `spelling` = string, `st` = {exg, exr, ing, inr},
+  `fs` = [[abs components, size | null]] (everything that exists in the scratch file system).
+
+  * `c15.queries` ↦ the strings the model / the spec will hand to `casefold`, `fnmatch`, `re`
+  * `c15.create`  (+ tables `cf` = [[s, casefold s]], `glob` = [[text, pattern, bool]],
+                   `rex` = [[pattern, text, bool]]) ↦ model, spec, hyp (+ its conjuncts),
+                   `listed` = model of `utils.list_files`
+-/
+
+structure Case where
+  tree : Tree
+  st : Settings
+  cwd : Comps
+  spelling : PPath
+  order : List FileEnt
+  fs : FS
+
+def getStrs (j : Json) (k : String) : Except String (List String) :=
+  (·.toList) <$> j.getObjValAs? (Array String) k
+
+def parseCase (j : Json) : Except String Case := do
+  let name ← getStr j "name"
+  let fjs ← getArr j "files"
+  let files ← fjs.mapM fun f => do
+    let rel ← getStrs f "rel"
+    let size ← getNat f "size"
+    pure (⟨rel, size⟩ : FileEnt)
+  let idx ← getNats j "order"
+  let order := idx.filterMap fun i => files[i]?
+  let cwd ← getStrs j "cwd"
+  let sp ← getStr j "spelling"
+  let stj ← j.getObjVal? "st"
+  let st : Settings := ⟨← getStrs stj "exg", ← getStrs stj "exr", ← getStrs stj "ing", ← getStrs stj "inr"⟩
+  let fsj ← getArr j "fs"
+  let fs ← fsj.mapM fun e => do
+    let a ← e.getArr?
+    let p ← (a[0]?.getD Json.null).getArr?
+    let comps ← p.toList.mapM fun c => c.getStr?
+    let sz : Option Nat := ((a[1]?.getD Json.null).getNat?).toOption
+    pure (comps, sz)
+  pure ⟨⟨name, files⟩, st, cwd, parse sp, order, fs⟩
+
+def Case.env (c : Case) : Env := ⟨c.cwd, c.spelling, c.order, fsProbe c.fs c.cwd⟩
+
+def createdJson : Created → Json
+  | .empty => jobj [("kind", "empty")]
+  | .single n s => jobj [("kind", "single"), ("name", jstr n), ("size", jnat s)]
+  | .multi n fs => jobj [("kind", "multi"), ("name", jstr n),
+      ("files", jarr (fs.map fun (p, s) => jarr [jarr (p.map jstr), jnat s]))]
+
+def resultJson : Except Err Created → Json
+  | .ok c => createdJson c
+  | .error .relativeTo => jobj [("kind", "error"), ("err", "ValueError:relative_to")]
+
+/-- the pattern-path strings `filter_files` builds for the listed files (model) -/
+def modelPatPaths (c : Case) : List String :=
+  let B := pathlibNorm c.spelling
+  let listed := listFiles id B c.order
+  match withGetter c.cwd (abspath c.cwd B) listed with
+  | .ok items =>
+    let base := (commonpath (items.map (·.2))).getD c.cwd
+    items.map fun it => withBaseStr base it.2
+  | .error _ => []
+
+def queries (j : Json) : Except String Json := do
+  let c ← parseCase j
+  let B := pathlibNorm c.spelling
+  return jobj [("listed", jarr (c.order.map fun f => jstr (walkStr B f))),
+               ("patpaths", jarr ((modelPatPaths c).map jstr)),
+               ("specpaths", jarr (c.tree.files.map fun f => jstr (Spec.patPath c.tree.name f)))]
+
+def lookup2 (tbl : List (String × String × Bool)) (a b : String) : Bool :=
+  match tbl.find? (fun e => e.1 == a && e.2.1 == b) with
+  | some e => e.2.2
+  | none => false
+
+def parseOracles (j : Json) : Except String Oracles := do
+  let cfj ← getArr j "cf"
+  let cf ← cfj.mapM fun e => do
+    let a ← e.getArr?
+    pure ((← (a[0]?.getD Json.null).getStr?), (← (a[1]?.getD Json.null).getStr?))
+  let tbl (k : String) : Except String (List (String × String × Bool)) := do
+    let tj ← getArr j k
+    tj.mapM fun e => do
+      let a ← e.getArr?
+      pure ((← (a[0]?.getD Json.null).getStr?), (← (a[1]?.getD Json.null).getStr?),
+            (← (a[2]?.getD Json.null).getBool?))
+  let g ← tbl "glob"
+  let r ← tbl "rex"
+  pure ⟨fun s => ((cf.find? (·.1 == s)).map (·.2)).getD s, lookup2 g, lookup2 r⟩
+
+def create (j : Json) : Except String Json := do
+  let c ← parseCase j
+  let o ← parseOracles j
+  let env := c.env
+  let model := pathSetter o c.st env
+  -- the same model with the empty-file probe answering for the tree's own file (what a repair
+  -- of D15a alone would give); only used by the finding matchers of the other defect classes
+  let trueProbe : Comps → Option Nat := fun fp =>
+    (c.tree.files.find? fun f => f.rel == fp.drop 1).map (·.size)
+  let modelPF := pathSetter o c.st { env with probe := trueProbe }
+  let spec := Spec.created o c.st c.tree
+  let B := pathlibNorm c.spelling
+  let listed := (listFiles o.cf B c.order).map fun it => jstr (walkStr B it.ent)
+  return jobj [("model", resultJson model), ("modelProbeFixed", resultJson modelPF),
+               ("spec", createdJson spec),
+               ("modelEqSpec", jbool (model == .ok spec)),
+               ("hyp", jbool (Spec.hypB c.st env c.tree)),
+               ("hypName", "cleanTree ∧ spellOK ∧ nameOK ∧ probeOK ∧ prefixOK ∧ order.isPerm"),
+               ("hypParts", jobj [("cleanTree", jbool (Spec.cleanTree c.tree)),
+                                  ("spellOK", jbool (Spec.spellOK env c.tree)),
+                                  ("nameOK", jbool (Spec.nameOK env c.tree)),
+                                  ("probeOK", jbool (Spec.probeOK env c.tree)),
+                                  ("prefixOK", jbool (Spec.prefixOK c.st c.tree)),
+                                  ("perm", jbool (c.order.isPerm c.tree.files))]),
+               ("probeWrong", jarr ((c.tree.files.filter fun f =>
+                    probeEmpty env.probe (c.tree.name :: f.rel) != (f.size == 0)).map fun f =>
+                    jarr (f.rel.map jstr))),
+               ("listed", jarr listed)]
+
+def handle (op : String) (j : Json) : Except String Json :=
+  match op with
+  | "c15.queries" => queries j
+  | "c15.create" => create j
+  | _ => throw s!"unknown op {op}"
 
 end Driver.C15
